@@ -13,8 +13,11 @@ def csum16(data: bytes) -> int:
     return (~s) & 0xFFFF
 
 
-def build_frame(src_mac, dst_mac, src_ip, dst_ip, proto, l4_wo_csum: bytes, csum_off: int, *, bad_csum=False, ttl=64, ip_id=0):
-    """l4_wo_csum has checksum field zero at csum_off; returns full Ethernet frame."""
+def build_frame(src_mac, dst_mac, src_ip, dst_ip, proto, l4_wo_csum: bytes, csum_off: int, *, bad_csum=False, ttl=64, ip_id=0, wire=None):
+    """l4_wo_csum has checksum field zero at csum_off; returns full Ethernet frame.
+    wire: optional on-the-wire decorations {"vlan": vid, "ip4opt": n NOP option bytes (multiple of 4), "ip6ext": n 8-byte extension headers
+    (hop-by-hop first, then destination options), "pad": True = short frames padded to 60 bytes as on real Ethernet}"""
+    wire = wire or {}
     sip = ip_address(src_ip)
     dip = ip_address(dst_ip)
     v6 = sip.version == 6
@@ -34,14 +37,24 @@ def build_frame(src_mac, dst_mac, src_ip, dst_ip, proto, l4_wo_csum: bytes, csum
         c = c2
     l4 = l4_wo_csum[:csum_off] + struct.pack("!H", c) + l4_wo_csum[csum_off + 2:]
     if v6:
-        ip = struct.pack("!IHBB", 0x60000000, len(l4), proto, ttl) + sip.packed + dip.packed
+        ext, nxt = b"", proto
+        for k in reversed(range(wire.get("ip6ext", 0))):
+            # 8-byte options header: next header, length 0, PadN option of 4 data bytes; the first one is hop-by-hop (0), later ones destination options (60)
+            ext = struct.pack("!BBBB4x", nxt, 0, 1, 4) + ext
+            nxt = 0 if k == 0 else 60
+        ip = struct.pack("!IHBB", 0x60000000, len(ext) + len(l4), nxt, ttl) + sip.packed + dip.packed + ext
         etype = 0x86DD
     else:
-        hdr = struct.pack("!BBHHHBBH", 0x45, 0, 20 + len(l4), ip_id & 0xFFFF, 0x4000, ttl, proto, 0) + sip.packed + dip.packed
+        opts = b"\x01" * wire.get("ip4opt", 0)
+        hdr = struct.pack("!BBHHHBBH", 0x40 | (5 + len(opts) // 4), 0, 20 + len(opts) + len(l4), ip_id & 0xFFFF, 0x4000, ttl, proto, 0) + sip.packed + dip.packed + opts
         hc = csum16(hdr)
         ip = hdr[:10] + struct.pack("!H", hc) + hdr[12:]
         etype = 0x0800
-    return dst_mac + src_mac + struct.pack("!H", etype) + ip + l4
+    tag = struct.pack("!HH", 0x8100, wire["vlan"] & 0x0FFF) if wire.get("vlan") else b""
+    frame = dst_mac + src_mac + tag + struct.pack("!H", etype) + ip + l4
+    if wire.get("pad") and len(frame) < 60:
+        frame += b"\x00" * (60 - len(frame))
+    return frame
 
 
 def unfolded_sum(src_ip, dst_ip, proto, l4_wo_csum: bytes) -> int:
@@ -60,7 +73,11 @@ def unfolded_sum(src_ip, dst_ip, proto, l4_wo_csum: bytes) -> int:
 def tcp_frame(src_mac, dst_mac, src_ip, dst_ip, sport, dport, seq, ack, flags, payload, steer=None, **kw):
     """steer = (window, urgent pointer): free header fields used to drive the checksum to a chosen value"""
     win, urg = steer if steer else (65535, 0)
-    tcp = struct.pack("!HHIIBBHHH", sport, dport, seq & 0xFFFFFFFF, ack & 0xFFFFFFFF, 5 << 4, flags, win & 0xFFFF, 0, urg & 0xFFFF) + payload
+    wire = kw.get("wire") or {}
+    topt = b""
+    if wire.get("tcpopt"):      # NOP NOP timestamps (the usual 12 bytes) or plain NOP padding
+        topt = (b"\x01\x01\x08\x0a" + struct.pack("!II", seq & 0xFFFFFFFF ^ 0x5A5A5A5A, ack & 0xFFFFFFFF) if wire["tcpopt"] == 12 else b"\x01" * wire["tcpopt"])
+    tcp = struct.pack("!HHIIBBHHH", sport, dport, seq & 0xFFFFFFFF, ack & 0xFFFFFFFF, (5 + len(topt) // 4) << 4, flags, win & 0xFFFF, 0, urg & 0xFFFF) + topt + payload
     return build_frame(src_mac, dst_mac, src_ip, dst_ip, 6, tcp, 16, **kw)
 
 
